@@ -103,6 +103,10 @@ class Signal(np.lib.mixins.NDArrayOperatorsMixin):
 
         in_arr = tuple((i.data if isinstance(i, Signal) else i) for i in inputs)
 
+        # A mask given as a signal is an operand, too
+        if isinstance(kwargs.get("where"), Signal):
+            kwargs["where"] = kwargs["where"].data
+
         if out is None:
             out = (None,) * ufunc.nout
 
